@@ -991,7 +991,11 @@ fn equal_qname(
     context: &model::Context,
 ) -> error::Result<bool> {
     if let Some((local_part_a, _, uri_a)) = node.as_expanded_name()? {
-        let (local_part_b, _, uri_b) = context.expanded_name(qname)?;
+        let (local_part_b, _, mut uri_b) = context.expanded_name(qname)?;
+        // an unprefixed name test on the attribute axis is in no namespace.
+        if matches!(node, dom::XmlNode::Attribute(_)) && matches!(qname, nom::model::QName::Unprefixed(_)) {
+            uri_b = None;
+        }
         Ok(local_part_a == local_part_b && uri_a == uri_b)
     } else {
         Ok(false)
